@@ -17,7 +17,7 @@
 (*                   deterministically by Stride / PoolStride                                     *)
 (*   Form = "free"   any MaxSteps steps (TLC simulation: random sessions)                         *)
 EXTENDS JoinSess, JoinMech, TLC, Json
-CONSTANTS MaxSteps, Stride, PoolStride, Gen, Form, Memo
+CONSTANTS MaxSteps, Stride, PoolStride, ZStride, Gen, Form, Memo
 VARIABLES pool0,        \* the pool as built
           pool,         \* the pool now: [X |-> table, Y |-> table, Z |-> table]
           kindY,        \* what kind of object Y is
@@ -40,12 +40,16 @@ NoStep == [kind |-> "none"]
 NoOut == [kind |-> "none"]
 NoConv == [obj |-> "none", val |-> TZ(<<>>)]
 
-Init == \E fx \in [1..3 -> 1..3], fy \in [1..3 -> 1..KMax], fz \in [1..2 -> 1..KMax], k \in Range(YKinds) :
+WXY(fx, fy) == fx[1] + (3 * fx[2]) + (9 * fx[3]) + (27 * fy[1]) + (135 * fy[2]) + (675 * fy[3])
+Init == \E fx \in [1..3 -> 1..3], fy \in [1..3 -> 1..KMax] :
            /\ (Form = "pairs" => Rich(fx, fy))
-           /\ w = fx[1] + (3 * fx[2]) + (9 * fx[3]) + (27 * fy[1]) + (135 * fy[2]) + (675 * fy[3]) + (3375 * fz[1]) + (16875 * fz[2]) + (84375 * KindIx(k))
-           /\ ((w * 7) + KindIx(k)) % PoolStride = 0
-           /\ pool0 = [X |-> TX(fx), Y |-> TY(fy), Z |-> TZ(fz)] /\ pool = pool0 /\ kindY = k
-           /\ n = 0 /\ last = NoStep /\ out = NoOut /\ conv = NoConv /\ hist = <<>>
+           /\ WXY(fx, fy) % PoolStride = 0
+           /\ \E fz \in [1..2 -> 1..KMax] :
+                 /\ (WXY(fx, fy) + (3 * fz[1]) + (7 * fz[2])) % ZStride = 0
+                 /\ \E k \in Range(YKinds) :                              \* the same contents with every kind of Y
+                       /\ w = WXY(fx, fy) + (3375 * fz[1]) + (16875 * fz[2]) + (84375 * KindIx(k))
+                       /\ pool0 = [X |-> TX(fx), Y |-> TY(fy), Z |-> TZ(fz)] /\ pool = pool0 /\ kindY = k
+                       /\ n = 0 /\ last = NoStep /\ out = NoOut /\ conv = NoConv /\ hist = <<>>
 
 Picked(i) == ((w * 61) + (n * 131) + (i * 7)) % Stride = 0
 Record(step) == IF Gen THEN Append(hist, step) ELSE hist
@@ -95,13 +99,13 @@ Possible(e) == CASE e.kind = "cell" -> e.row <= NRows(pool[e.obj]) /\ pool[e.obj
 \* a dict / Dict shares its column lists with the table made of it: in-place edits of the lists get through to a remembered conversion
 Through(e) == Memo = "conv" /\ conv.obj = e.obj /\ kindY \in {"dict", "Dict"} /\ e.kind \in {"cell", "append"}
 Edit == \E e \in EditSteps :
-           /\ EditOK /\ Possible(e) /\ Picked(EditNo(e))
+           /\ EditOK /\ Possible(e) /\ ((e.kind = "setcol" /\ e.how = "shift") \/ Picked(EditNo(e)))      \* a replaced column: never thinned
            /\ pool' = ApplyEdit(pool, Concrete(e))
            /\ conv' = IF Through(e) THEN [conv EXCEPT !.val = pool'[e.obj]] ELSE conv
            /\ last' = Concrete(e) /\ n' = n + 1 /\ out' = NoOut /\ hist' = Record(last')
            /\ UNCHANGED <<pool0, kindY, w>>
 \* every cell of the table the last call returned is overwritten in place; nothing of the pool may change
-EditResult == /\ EditOK /\ last.kind = "call" /\ Picked(4000)
+EditResult == /\ EditOK /\ last.kind = "call"
               /\ last' = [kind |-> "editresult"] /\ n' = n + 1 /\ out' = NoOut /\ hist' = Record(last')
               /\ UNCHANGED <<pool0, pool, kindY, w, conv>>
 Complete == IF Form = "pairs" THEN n >= 2 /\ n < 99 /\ last.kind = "call" ELSE n = MaxSteps
